@@ -543,7 +543,10 @@ Fixpoint replay (fuel : nat) (c : config) (st : state) (pend : list nat) (log : 
       cleared its tally r+1 times and made all the generator calls of rounds
       0..r, or has panicked;
     - a thread takes a snapshot or drops a value only when every thread has
-      taken at least as many end timestamps as itself, or has panicked. *)
+      taken at least as many end timestamps as itself, or has panicked;
+    - a generator call, clear, snapshot or drop (untimed work) is logged only
+      while no thread - the logging one included - is between a start and an
+      end timestamp, panicked threads excepted. *)
 Record mcnt : Type := { m_gen : nat; m_clear : nat; m_start : nat; m_end : nat; m_pan : bool }.
 Definition mcnt0 : mcnt := {| m_gen := 0; m_clear := 0; m_start := 0; m_end := 0; m_pan := false |}.
 
@@ -561,13 +564,19 @@ Definition mon_upd (m : mcnt) (e : evk) : mcnt :=
 Fixpoint cum (sz : nat -> nat) (k : nat) : nat :=
   match k with 0 => 0 | S k' => cum sz k' + sz k' end.
 
+(** No live thread is inside its timed section (it has taken as many end as
+    start timestamps): what must hold whenever untimed work is logged. *)
+Definition untimed_ok (ms : list mcnt) : bool :=
+  forallb (fun mj => m_pan mj || (m_start mj <=? m_end mj)) ms.
+
 (** What must hold when thread (with counters) [m] logs [e]. *)
 Definition mon_ok (sz : nat -> nat) (ms : list mcnt) (m : mcnt) (e : evk) : bool :=
   match e with
   | EStart =>
     forallb (fun mj => m_pan mj || ((S (m_start m) <=? m_clear mj) && (cum sz (S (m_start m)) <=? m_gen mj))) ms
   | ESnap | EDropOut | EDropIn =>
-    forallb (fun mj => m_pan mj || (m_end m <=? m_end mj)) ms
+    forallb (fun mj => m_pan mj || (m_end m <=? m_end mj)) ms && untimed_ok ms
+  | EGen | EClear => untimed_ok ms
   | _ => true
   end.
 
